@@ -270,11 +270,21 @@ def r2_restore(model, rep):
             if fin:
                 restoring = (t, fin[0])
         if restoring is None:
+            # a restore written as a loop over saved items (params[par] = val) cannot be matched to a location here
+            loopish = [a for t in tries for s in t.finalbody for a in ast.walk(s) if isinstance(a, ast.Assign) and isinstance(a.targets[0], ast.Subscript)
+                       and "._params[" in ast.unparse(a.targets[0]) and not isinstance(a.targets[0].slice, ast.Constant)]
+            if loopish:
+                raise AnalysisError("batt_life: the finally clause restores parameters through a computed key (%s): not readable" % ast.unparse(loopish[0])[:60])
             ok = False
             rep.violation("R2", "system.System.batt_life", where, "%s is overwritten during the depletion loop but is not restored from its saved original in a `finally` clause: an exception in a callback or the solver leaves the battery modified" % loc, "no finally restore of " + loc)
             continue
         t, fin = restoring
         inside = set(id(y) for s in t.body for y in ast.walk(s))
+        # a write inside a nested function happens where that function is called
+        for nf in [x for x in ast.walk(fn) if isinstance(x, ast.FunctionDef) and x is not fn]:
+            calls = [c for c in ast.walk(fn) if isinstance(c, ast.Call) and isinstance(c.func, ast.Name) and c.func.id == nf.name]
+            if calls and all(id(c) in inside for c in calls):
+                inside |= set(id(y) for y in ast.walk(nf))
         for w in ws:
             if w is fin:
                 continue
